@@ -1506,6 +1506,28 @@ fn fixed_cases() -> Vec<Case> {
             v.push(plain_case(fmt, w, 1, sauce, row));
         }
     }
+    // palettes that differ from the DOS default in exactly ONE entry (each of the 16 in turn): "is this the default palette?"
+    // decides whether a palette block is written at all, so every entry must take part in that decision
+    for fmt in ALL {
+        if !fmt.embeds() {
+            continue;
+        }
+        let w = if fmt == Fmt::Adf { 80 } else { 16 };
+        for i in 0..16usize {
+            let mut pal = dos_palette();
+            let (r, g, b) = pal[i];
+            pal[i] = (r ^ 0x82, g ^ 0x41, b ^ 0xC3); // stays 6-bit representable: both copies of the top two bits flip together
+            let row: Vec<Cell> = (0..w).map(|x| Cell { ch: 0xDB, fg: (x % 16) as u32, bg: ((x + i) % 16) as u32, flags: 0, page: 0 }).collect();
+            for opts in [0u8, 2] {
+                v.push(Case { fmt, ice: 2, w, opts, pal: Some(pal.clone()), fonts: vec![(0, FontSpec::Default)], cells: row.clone() });
+            }
+        }
+    }
+    // BIN: the width travels in the SAUCE record only (file type = width / 2): every width class incl. the ones above 255
+    for w in [2usize, 4, 126, 128, 130, 160, 254, 256, 258, 300, 384, 508, 510] {
+        let row: Vec<Cell> = (0..w * 2).map(|x| Cell { ch: 0x30 + (x % 10) as u32, fg: (x % 16) as u32, bg: ((x / 16) % 8) as u32, flags: 0, page: 0 }).collect();
+        v.push(plain_case(Fmt::Bin, w, 2, 1, row));
+    }
     // XBin: two fonts, blink mode, custom palette + fonts
     let p0 = Cell { ch: 0x41, fg: 7, bg: 1, flags: 0, page: 0 };
     let p1 = Cell { ch: 0x41, fg: 7, bg: 1, flags: 0, page: 1 };
